@@ -64,8 +64,48 @@ def check(case, rec):
     rec.note(case, bool(set(cl) & {"indel_next_to_run", "pair_at_radius_k>=2", "dup_pair"}), cl + [case["engine"]])
     got = trip(call("search", ENG[case["engine"]], list(seqs), max_edits=k, **kw))
     same_multiset("engine-vs-oracle", got, want, f"engine={case['engine']} k={k} n={len(seqs)}")
-    ref = trip(call("search", pyrepseq.nearest_neighbor, list(seqs), max_edits=k))
-    same_multiset("engine-vs-nearest_neighbor", got, ref, f"engine={case['engine']} k={k} n={len(seqs)}")
+    if k <= 4 or max(len(x) for x in seqs) <= 12:
+        # (symdel enumerates all deletion subsets up to size k: the three-way comparison is skipped for the large radii of
+        #  the boundary family, where the brute-force oracle alone decides)
+        ref = trip(call("search", pyrepseq.nearest_neighbor, list(seqs), max_edits=k))
+        same_multiset("engine-vs-nearest_neighbor", got, ref, f"engine={case['engine']} k={k} n={len(seqs)}")
+
+
+def check_planted(case, rec):
+    n, k = case["n"], case["k"]
+    seqs, fams = G.planted_collection(n, k, case.get("salt", 0), high=True)
+    want = G.planted_neighbours(seqs, fams, k, O.lev)
+    rec.note(case, True, [f"n={n}", case["engine"]])
+    got = trip(call("search", ENG[case["engine"]], list(seqs), max_edits=k))
+    same_multiset("planted-neighbour-set", got, want, f"engine={case['engine']} k={k} n={n}")
+
+
+def enum_planted(tier):
+    yield {"n": 2500, "k": 1, "engine": "kdtree", "salt": 1}
+    yield {"n": 2500, "k": 2, "engine": "kdtree", "salt": 2}
+    yield {"n": 400, "k": 1, "engine": "hash_based", "salt": 3}
+    if tier == "thorough":
+        yield {"n": 30000, "k": 1, "engine": "kdtree", "salt": 4}
+        yield {"n": 3000, "k": 1, "engine": "hash_based", "salt": 5}
+
+
+def check_long_runs(case, rec):
+    """Sequences dominated by one residue (poly-G linkers and the like), run lengths around 127/128 and 255/256."""
+    L, c, o = case["L"], case["letter"], case["other"]
+    seqs = [c * L, c * (L + 1), c * (L - 1) + o, o + c * L, c * (L // 2) + o + c * (L - L // 2), c * (L + 2), "CAS" + c * L + "F", "CAS" + c * (L + 1) + "F"]
+    k = case["k"]
+    want = O.neighbours_self(seqs, k, O.lev)
+    rec.note(case, True, [f"L={L}", case["engine"]])
+    got = trip(call("search", ENG[case["engine"]], list(seqs), max_edits=k))
+    same_multiset("long-run-neighbour-set", got, want, f"engine={case['engine']} k={k} run length {L}")
+
+
+def enum_long_runs(tier):
+    for L in (62, 63, 64, 126, 127, 128, 129, 254, 255, 256, 257):
+        for letter, other in (("G", "S"), ("A", "W")):
+            yield {"L": L, "letter": letter, "other": other, "k": 1 + L % 2, "engine": "kdtree"}
+        if L <= 129:
+            yield {"L": L, "letter": "G", "other": "S", "k": 1, "engine": "hash_based"}
 
 
 def enum_cases(tier):
@@ -124,7 +164,7 @@ def random_case(draw, tier="quick"):
     engine = draw(st.sampled_from(["hash_based", "kdtree", "kdtree"]))
     alpha = draw(G.alphabet(amino_only=True))
     if engine == "hash_based":
-        k = draw(st.sampled_from([1, 1, 1, 2, 2, 2, 2, 3]))
+        k = draw(st.sampled_from([1, 1, 1, 1, 2, 2, 2, 2, 1, 1, 2, 2, 1, 2, 2, 3]))
         if k == 3:
             seqs = draw(G.clonal_family(alpha=alpha, max_size=5, founder_len=(0, 3), max_edits=3))
             seqs = [s[:3] for s in seqs]
@@ -148,5 +188,7 @@ def random_case(draw, tier="quick"):
 
 SUBS = [
     Sub("exhaustive", check, enum=enum_cases),
-    Sub("random", check, strategy=lambda tier: random_case(tier), budget=(2500, 30000)),
+    Sub("planted_large", check_planted, enum=enum_planted),
+    Sub("long_runs", check_long_runs, enum=enum_long_runs),
+    Sub("random", check, strategy=lambda tier: random_case(tier), budget=(2500, 12000)),
 ]
